@@ -6,6 +6,7 @@
    the server, ending in state s with trace tr (each action followed by what it made observable).
    cfg (UDP on/off, bandwidth settings) and masq (the masquerade handler, any function) are arbitrary. *)
 From Hy Require Import model.C01_ServerAuth proof.C01_ServerAuth proof.C01_AnyId.
+From Hy Require Import model.C01_Compose proof.C01_Compose.
 Local Open Scope N_scope.
 
 (* Every Outbound.TCP / Outbound.UDP call and every relayed payload for a connection c is preceded, in the
@@ -74,3 +75,64 @@ Theorem C01_accept_with_any_id_is_final : forall cfg masq acts1 s0 tr0 c id pad 
      step cfg masq s2 (HttpReq c r pad2) = Some (s2, [ObsResp c r (resp_auth_ok cfg pad2)])).
 Proof. exact accept_with_any_id_is_final. Qed.
 Print Assumptions C01_accept_with_any_id_is_final.
+
+(* ---- Composition.  The theorems above are about the abstract LTS, in which the inside of handleTCPRequest and
+   of the UDP session manager is "may reach the outbound / relay once it exists".  model/C01_Compose.v is the
+   per-connection PRODUCT: the C01 control LTS (used as it is) x one run of the handleTCPRequest LTS of property
+   C06 (model/C06_Hook.v hstep, which embeds the copy loops and teardown of model/C06_Relay.v) for every stream
+   ProxyStreamHijacker accepts x the session-manager LTS of property C07 (model/C07_UDPSessions.v step) once
+   ServeHTTP has started it.  No component step looks at the authenticated flag; `krun cfg masq md timeout kinit
+   acts = Some (k, tr)`: acts (any interleaving of control actions of any number of connections with the actions
+   of all their handlers and managers) is a behaviour of the product, tr its trace in C01's vocabulary. *)
+
+(* (a) The gate, for the composed system.  Every action of a handler (reading the request, the hook, Outbound.TCP,
+   the response, the putback, every Read / LogTraffic / Write of both copy loops, the teardown) or of the session
+   manager (ReceiveMessage, table lookup / insert, Outbound.UDP, WriteTo, ReadFrom, SendMessage, every close) of
+   connection c is taken in a product state whose C01 component has c authenticated, and comes after an accepting
+   verdict of the authenticator on THAT connection c in the run. *)
+Theorem C01_composed_no_component_action_before_auth : forall cfg masq md timeout pre a post k tr c,
+  krun cfg masq md timeout kinit (pre ++ a :: post) = Some (k, tr) -> kcomp_conn a = Some c ->
+  (exists id pad, In (KCtl (AuthVerdict c true id pad)) pre) /\
+  (forall k1 tr1 k2 o, krun cfg masq md timeout kinit pre = Some (k1, tr1) ->
+     kstep cfg masq md timeout k1 a = Some (k2, o) -> authed (k_base k1 c) = true).
+Proof. exact composed_no_component_action_before_auth. Qed.
+Print Assumptions C01_composed_no_component_action_before_auth.
+
+(* (b) Refinement.  The projection of a product run (control actions as they are; a handler's dial -> TcpDial, its
+   putback and every chunk a copy loop writes -> TcpRelay; the manager's dial -> UdpRecv, its WriteTo / SendMessage
+   -> UdpRelay; every other component action -> nothing) is a run of the abstract C01 LTS with the SAME trace, ending
+   in a state that agrees with the product on every flag of every connection. *)
+Theorem C01_composed_refines_abstract : forall cfg masq md timeout acts k tr,
+  krun cfg masq md timeout kinit acts = Some (k, tr) ->
+  exists s, run cfg masq init (flat_map kabs acts) = Some (s, tr) /\
+    forall c, authed (s c) = authed (k_base k c) /\ auth_id (s c) = auth_id (k_base k c) /\
+              in_auth (s c) = in_auth (k_base k c) /\ udp_sm (s c) = udp_sm (k_base k c) /\
+              closed (s c) = closed (k_base k c).
+Proof. exact composed_refines_abstract. Qed.
+Print Assumptions C01_composed_refines_abstract.
+
+(* ... so the C01 theorems hold of the product; the headline one, restated: in the trace of every product run,
+   every Outbound.TCP / Outbound.UDP call and every relayed payload for c is preceded by an accepting verdict on c
+   (and the executable monitor accepts the trace). *)
+Theorem C01_composed_no_outbound_before_auth : forall cfg masq md timeout acts k tr,
+  krun cfg masq md timeout kinit acts = Some (k, tr) ->
+  c01_mon [] tr = true /\
+  forall pre e post c, tr = pre ++ e :: post -> outbound_conn e = Some c ->
+    exists id pad, In (EAct (AuthVerdict c true id pad)) pre.
+Proof. exact compose_no_outbound_before_auth. Qed.
+Print Assumptions C01_composed_no_outbound_before_auth.
+
+(* The address / size labels the product carries for the projection restrict no component: whatever step a
+   handler can take by its own LTS it can take in the product, and so can the session manager - except that
+   ReceiveMessage delivers a datagram only if one is queued on the connection. *)
+Theorem C01_composed_labels_never_block : forall cfg masq md timeout acts k tr,
+  krun cfg masq md timeout kinit acts = Some (k, tr) ->
+  (forall c i h x p', nth_error (k_tcp k c) i = Some h -> H.hstep false md (h_pc h) x = Some p' ->
+     kstep cfg masq md timeout k (KTcp c i (h_addr h) x) <> None) /\
+  (forall c u x u' ev, k_udp k c = Some u -> U.step timeout u x = Some (u', ev) ->
+     match x with
+     | U.ARecv _ _ => forall addr n, mem addr (dq (k_base k c)) = true -> kstep cfg masq md timeout k (KUdp c addr n x) <> None
+     | _ => exists addr, forall n, kstep cfg masq md timeout k (KUdp c addr n x) <> None
+     end).
+Proof. exact composed_labels_never_block. Qed.
+Print Assumptions C01_composed_labels_never_block.
